@@ -16,6 +16,7 @@
 (* never-activated forks.  Non-monotone schedules are not deployable       *)
 (* configurations and are excluded.                                        *)
 (*                                                                         *)
+(* Fork epochs range over 0..MaxForkEpoch and FAR (ForksParams).            *)
 (* TLC (a) model-checks that the chain of upgrades and                     *)
 (* compute_fork_version name the same fork in every reachable state        *)
 (* (variables s, e, st; invariant Agreement) and (b) writes the table      *)
@@ -23,7 +24,7 @@
 (* which harness/cmd/forks replays on zrnt (Spec.ForkVersion, ForkDecoder, *)
 (* ProcessSlots + UpgradeMaybe, envelope signature check).                 *)
 (***************************************************************************)
-EXTENDS Integers, Sequences, FiniteSets, TLC, Json, SequencesExt
+EXTENDS Integers, Sequences, FiniteSets, TLC, Json, SequencesExt, ForksParams
 
 ForkNames == <<"phase0", "altair", "bellatrix", "capella", "deneb", "electra", "fulu">>
 Name(k) == ForkNames[k + 1]          \* fork index 0..6
@@ -31,9 +32,10 @@ NForks == 6                          \* scheduled forks: s[1] = altair epoch .. 
 
 FAR == 1000000                       \* FAR_FUTURE_EPOCH (2^64-1 on the Go side)
 BIG == 999999                        \* "a very large epoch that is not FAR_FUTURE_EPOCH"
-Vals == {0, 1, 2, 3, 4, FAR}
+Vals == (0..MaxForkEpoch) \cup {FAR}      \* MaxForkEpoch from ForksParams (4 quick, 5 thorough)
 Schedules == {s \in [1..NForks -> Vals] : \A i \in 1..(NForks - 1) : s[i] <= s[i + 1]}
-ProbeEpochs == {0, 1, 2, 3, 4, 5, BIG, FAR}
+MaxEpoch == MaxForkEpoch + 1         \* chains / probes go one epoch past the last possible fork
+ProbeEpochs == (0..MaxEpoch) \cup {BIG, FAR}
 
 (* compute_fork_version (fulu/fork.md), newest fork first *)
 ForkIdxAt(s, e) ==
@@ -68,7 +70,6 @@ ExpectedState(s, e) ==
 
 (* ---------------- model: advance a chain epoch by epoch ---------------- *)
 VARIABLES s, e, st
-MaxEpoch == 5
 
 Init == /\ s \in Schedules
         /\ e = 0
